@@ -23,7 +23,32 @@ OPS = {"eq": operator.eq, "ne": operator.ne, "lt": operator.lt, "le": operator.l
        "gt": operator.gt, "ge": operator.ge}
 
 
-def job_cmp(ctx, mode, ra, rb, op, ranges=None, tzh=(-99, 99), near=None, K=C.KWIDE, pins=None):
+def _decimalise(p, form, frac):
+    """turn the hh:mm:ss state into the hh,ii / hh:mm,nn precision form (integer parts stay symbolic)"""
+    if form == "hdec":
+        p._hour_of_day = p._hour_of_day + frac
+        p._minute_of_hour = p._second_of_minute = None
+    else:
+        p._minute_of_hour = p._minute_of_hour + frac
+        p._second_of_minute = None
+
+
+def _tsec(p):
+    t = p._hour_of_day * 3600
+    if p._minute_of_hour is not None:
+        t = t + p._minute_of_hour * 60
+    if p._second_of_minute is not None:
+        t = t + p._second_of_minute
+    return t
+
+
+def _instant_any(mode, p, rep):
+    """instant of a point in any precision form (the listed dyadic fractions make it a whole number of seconds)"""
+    tz = p._time_zone
+    return C.m_daynum(mode, rep, C.fields_of(p, rep)) * 86400 + _tsec(p) - tz._hours * 3600 - tz._minutes * 60
+
+
+def job_cmp(ctx, mode, ra, rb, op, ranges=None, tzh=(-99, 99), near=None, K=C.KWIDE, pins=None, dec=None):
     """a op b for two symbolic points.  near=(lo, hi): b's year = a's year + dy
     with dy in that range (so that the two points can actually be close)."""
     data = ctx.data
@@ -32,13 +57,21 @@ def job_cmp(ctx, mode, ra, rb, op, ranges=None, tzh=(-99, 99), near=None, K=C.KW
     fn = OPS[op]
 
     def make(e):
-        a = C.point_input(e, data, "a", ra, tzh=tzh, K=K)
-        b = C.point_input(e, data, "b", rb, tzh=tzh, K=K)
+        a = C.point_input(e, data, "a", ra, tzh=tzh, K=K, hmax=23 if (dec and "a" in dec) else 24)
+        b = C.point_input(e, data, "b", rb, tzh=tzh, K=K, hmax=23 if (dec and "b" in dec) else 24)
         if near is not None:
             b._year = a._year + e.var("dy", near[0], near[1])
-        return {"a": a, "b": b}
+        i = {"a": a, "b": b}
+        if dec:
+            # validity is stated on the hh:mm:ss state the decimal form is derived from
+            i["pre"] = z3.And(C.m_valid_point(mode, a, ra, True), C.m_valid_point(mode, b, rb, True))
+            for tag, (form, frac) in dec.items():
+                _decimalise(i[tag], form, frac)
+        return i
 
     def pre(i):
+        if dec:
+            return i["pre"]
         return z3.And(C.m_valid_point(mode, i["a"], ra, True), C.m_valid_point(mode, i["b"], rb, True))
 
     def body(i):
@@ -52,7 +85,10 @@ def job_cmp(ctx, mode, ra, rb, op, ranges=None, tzh=(-99, 99), near=None, K=C.KW
             res = bool(res)
         if not isinstance(res, bool):
             return [("returns a bool", False)]
-        ia, ib = L(C.m_instant(mode, i["a"], ra)), L(C.m_instant(mode, i["b"], rb))
+        if dec:
+            ia, ib = L(_instant_any(mode, i["a"], ra)), L(_instant_any(mode, i["b"], rb))
+        else:
+            ia, ib = L(C.m_instant(mode, i["a"], ra)), L(C.m_instant(mode, i["b"], rb))
         exp = {"eq": ia == ib, "ne": ia != ib, "lt": ia < ib, "le": ia <= ib, "gt": ia > ib, "ge": ia >= ib}[op]
         return [("a %s b is the order of the instants" % op, z3.BoolVal(res) == exp)]
 
@@ -60,10 +96,22 @@ def job_cmp(ctx, mode, ra, rb, op, ranges=None, tzh=(-99, 99), near=None, K=C.KW
         pb = C.point_case(v, "b", rb)
         if near is not None:
             pb["year"] = C.year_value(v, "a") + v["dy"]
-        return {"check": "cmp", "mode": mode, "op": op, "a": C.point_case(v, "a", ra), "b": pb}
+        pa = C.point_case(v, "a", ra)
+        for tag, kw in (("a", pa), ("b", pb)):
+            if dec and tag in dec:
+                form, frac = dec[tag]
+                kw.pop("second_of_minute")
+                if form == "hdec":
+                    kw.pop("minute_of_hour")
+                    kw["hour_of_day_decimal"] = frac
+                else:
+                    kw["minute_of_hour_decimal"] = frac
+        return {"check": "cmp", "mode": mode, "op": op, "a": pa, "b": pb}
 
     def zsc(i):
         a, b = i["a"], i["b"]
+        if dec:
+            return {"decimal-form operand": z3.BoolVal(True), "op:" + op: z3.BoolVal(True)}
         return {"24:00 operand": z3.Or(L(a._hour_of_day) == 24, L(b._hour_of_day) == 24),
                 "op:" + op: z3.BoolVal(True),
                 "different offsets": L(a._time_zone._hours) != L(b._time_zone._hours)}
@@ -72,7 +120,7 @@ def job_cmp(ctx, mode, ra, rb, op, ranges=None, tzh=(-99, 99), near=None, K=C.KW
         a, b = i["a"], i["b"]
         return {"negative year": conc(a._year) < 0, "reps:%s/%s" % (ra, rb): True}
 
-    return sym_run("cmp[%s,%s,%s/%s,%s,near=%s]" % (mode, op, ra, rb, ranges, near), make, pre, body, post, case_of,
+    return sym_run("cmp[%s,%s,%s/%s,%s,near=%s%s]" % (mode, op, ra, rb, ranges, near, ",dec=%s" % (dec,) if dec else ""), make, pre, body, post, case_of,
                    scenarios=scen, scenarios_z3=zsc, ranges=ranges, pins=pins or getattr(ctx, "pins", None),
                    bounds={"years": "K in %s" % (K,), "offset hours": list(tzh), "year distance": near or "any",
                            "pins": pins or getattr(ctx, "pins", None)},
@@ -180,6 +228,13 @@ def jobs(tier):
             for op in ops:
                 for rg in split_ranges(ra, rb, th, mode):
                     J.append(("job_cmp", dict(mode=mode, ra=ra, rb=rb, op=op, near=near, tzh=z, ranges=rg)))
+        # decimal precision forms (hh,ii / hh:mm,nn with dyadic fractions) against hh:mm:ss and against each other
+        if greg or th:
+            dl = last_days(mode)
+            for op in (allops if th else ["eq", "lt", "ge"]):
+                for dec in ({"a": ("hdec", 0.5)}, {"b": ("hdec", 0.25)}, {"a": ("mdec", 0.5), "b": ("hdec", 0.75)}):
+                    for rg in ({"DOYa": (1, 2), "DOYb": dl}, {"DOYa": dl, "DOYb": (1, 2)}, {"DOYa": (59, 60), "DOYb": (59, 60)}):
+                        J.append(("job_cmp", dict(mode=mode, ra="ord", rb="ord", op=op, near=near, tzh=z, ranges=rg, dec=dec)))
         # far apart: 400-year cycle indices pinned to distant values, residues symbolic
         for ka, kb in ((4, 5), (5, -2500), (-1, 0)):
             J.append(("job_cmp", dict(mode=mode, ra="ord", rb="ord", op="lt", tzh=z, near=None,
@@ -260,11 +315,11 @@ INFO = {
                                   "and Feb/Dec (calendar), week dates in weeks 1, 52, 53 for year residues 104 and 399",
                          "operators": "all six for ordinal/ordinal (every date); == and < for calendar/calendar and week/week, < or == for the mixed pairs; week dates with the first operand's year residue mod 400 pinned to 104 / 399 (cycle index symbolic)"},
                "thorough": {"operators": "all six for every pair, 4 modes", "offsets": "-99:59..+99:59"}},
-    "outside": ["truncated points (excluded by the property)", "fractional seconds and decimal hour/minute forms",
+    "outside": ["truncated points (excluded by the property)", "fractional seconds; decimal hour/minute forms other than the dyadic fractions .25/.5/.75 on ordinal dates in the stated windows (decided exactly: with these fractions every instant is a whole number of seconds)",
                 "operand dates outside the stated windows in the comparison jobs (the hash jobs cover every date)"],
     "assumptions": ["hash(): the shim returns the tuple the real __hash__ builds; equal tuples of equal numbers have equal CPython hashes"],
 }
-REQUIRED_SCENARIOS = {"all": ["24:00 operand", "op:eq", "op:lt", "different offsets", "hash of 24:00", "negative year"]}
+REQUIRED_SCENARIOS = {"all": ["decimal-form operand", "24:00 operand", "op:eq", "op:lt", "different offsets", "hash of 24:00", "negative year"]}
 
 
 def job_cmp_res(ctx, mode, ra, rb, op, res, ranges=None, tzh=(-14, 14), near=(-1, 1)):
